@@ -8,9 +8,7 @@
    Not translated (outside the subset, still tied by the differential run
    only): the two range loops of dtlsRoleFromSDP ("the first a=setup
    attribute of the first media section that has one decides, none gives
-   auto"), SetAnsweringDTLSRole (assigns through a pointer receiver), and the
-   ICE role choice inside SetRemoteDescription (entangled with the session
-   description object). *)
+   auto") and SetAnsweringDTLSRole (assigns through a pointer receiver). *)
 From Coq Require Import List ZArith String Bool Lia.
 From Verif Require Import Common.Base Model.Roles Proofs.GenTactics.
 From Verif Require Gen.GoRoles.
@@ -80,4 +78,20 @@ Proof.
   first [ solve [ unfold answer_conn_role; destruct (role_from_sdp offer_setup);
                   destruct remote_lite, local_lite; z_decision_tree ]
         | fail 1 "c13_generated_model_agrees_CreateAnswer: GoRoles.CreateAnswer_connectionRole (regenerated from peerconnection.go) no longer equals Model.Roles.answer_conn_role" ].
+Qed.
+
+(* SetRemoteDescription: the ICE role handed to startTransports.  weOffer and
+   remoteIsLite are locals of SetRemoteDescription computed before these
+   statements (desc.Type == SDPTypeAnswer; a=ice-lite of the remote
+   description); they are parameters here. *)
+Definition rl_irole_to_Z (i : irole) : Z :=
+  match i with IUnknown => 0 | IControlling => 1 | IControlled => 2 end.
+
+Lemma gen_ice_role_agrees : forall we_offer remote_lite local_lite : bool,
+  GoRoles.SetRemoteDescription_iceRole we_offer remote_lite local_lite
+  = rl_irole_to_Z (ice_role we_offer remote_lite local_lite).
+Proof.
+  intros we_offer remote_lite local_lite.
+  first [ solve [ destruct we_offer, remote_lite, local_lite; reflexivity ]
+        | fail 1 "c13_generated_model_agrees_iceRole: GoRoles.SetRemoteDescription_iceRole (regenerated from peerconnection.go) no longer equals Model.Roles.ice_role" ].
 Qed.
